@@ -85,7 +85,14 @@ GtCases ==
   \o SetToSeq({ [op |-> "gt.finalexp", a |-> Raw12(a), alias |-> al, src |-> "gen"] :
                 a \in { GTGen, << <<<<Rnd(61), Rnd(62)>>, <<Rnd(63), Rnd(64)>>, <<Rnd(65), Rnd(66)>>>>, <<<<Rnd(67), Rnd(68)>>, <<Rnd(69), Rnd(70)>>, <<Rnd(71), Rnd(72)>>>> >> }, al \in {0, 1} })
 
-Cases == CASE What = "single" -> SingleCases [] What = "sum" -> SumCases [] OTHER -> GtCases
+\* C19 only: the C functions on arguments outside GT (arbitrary invertible Fq12 values, which gt_unmarshal hands out unchecked): the C view must
+\* still be the C++ operation it names (inverse, product, equality, bytes), not one that merely agrees with it on GT
+OutsideGT == { << <<<<Rnd(61), Rnd(62)>>, <<Rnd(63), Rnd(64)>>, <<Rnd(65), Rnd(66)>>>>, <<<<Rnd(67), Rnd(68)>>, <<Rnd(69), Rnd(70)>>, <<Rnd(71), Rnd(72)>>>> >>,
+               << <<<<Rnd(81), Zero>>, <<Zero, Zero>>, <<Zero, Zero>>>>, <<<<One, Rnd(82)>>, <<Zero, Zero>>, <<Zero, Zero>>>> >> }
+GtViewCases ==
+  SetToSeq({ [op |-> "gt.op", which |-> w, a |-> Raw12(a), b |-> Raw12(b), alias |-> 0, cls |-> "outside-gt", src |-> "gen"] :
+             w \in {"add", "negate", "equal", "marshal"}, a \in OutsideGT, b \in OutsideGT \cup {GTGen} })
+Cases == CASE What = "single" -> SingleCases [] What = "sum" -> SumCases [] What = "gtview" -> GtViewCases [] OTHER -> GtCases
 ASSUME PrintT(<<"cases", Len(Cases)>>)
 ASSUME ndJsonSerialize(IOEnv.OUT, Cases)
 =============================================================================
